@@ -226,27 +226,27 @@ func progs(k1, k2 interface{}) []prog {
 	var ps []prog
 	for _, ratio := range []int{1, 2, 3} {
 		ps = append(ps,
-			prog{name: "excl/R|R|W", ratio: ratio, threads: [][]call{{R(k1)}, {R(k1)}, {W(k1)}}, pb: [2]int{3, 6}},
-			prog{name: "excl/W|W|R", ratio: ratio, threads: [][]call{{W(k1)}, {W(k1)}, {R(k1)}}, pb: [2]int{3, 6}},
-			prog{name: "excl/RR|W", ratio: ratio, threads: [][]call{{R(k1), R(k1)}, {W(k1), R(k1)}}, pb: [2]int{3, 6}},
+			prog{name: "excl/R|R|W", ratio: ratio, threads: [][]call{{R(k1)}, {R(k1)}, {W(k1)}}, pb: [2]int{4, 6}},
+			prog{name: "excl/W|W|R", ratio: ratio, threads: [][]call{{W(k1)}, {W(k1)}, {R(k1)}}, pb: [2]int{4, 6}},
+			prog{name: "excl/RR|W", ratio: ratio, threads: [][]call{{R(k1), R(k1)}, {W(k1), R(k1)}}, pb: [2]int{4, 6}},
 		)
 	}
 	ps = append(ps,
 		prog{name: "excl/R|R|R|W", ratio: 2, threads: [][]call{{R(k1)}, {R(k1)}, {R(k1)}, {W(k1)}}, pb: [2]int{2, 3}},
 		// fifo: a reader holds, a writer arrives, a second reader arrives: all placements come from the interleaving
-		prog{name: "fifo/R-hold|W|R", ratio: 2, threads: [][]call{{R(k1)}, {W(k1)}, {R(k1)}}, pb: [2]int{3, 6}},
+		prog{name: "fifo/R-hold|W|R", ratio: 2, threads: [][]call{{R(k1)}, {W(k1)}, {R(k1)}}, pb: [2]int{4, 6}},
 		prog{name: "fifo/R-hold|W|R|R", ratio: 3, threads: [][]call{{R(k1)}, {W(k1)}, {R(k1)}, {R(k1)}}, pb: [2]int{2, 3}},
 		// cancel: the holder releases only after the late reader entered; the writer in between can only leave by cancellation
-		prog{name: "cancel/holder|Wctx|R", ratio: 2, threads: [][]call{{{key: k1, holdOn: "late-reader-in"}}, {{key: k1, write: true, ctx: 1}}, {{key: k1, signal: "late-reader-in"}}}, cancels: []int{1}, pb: [2]int{3, 6}},
+		prog{name: "cancel/holder|Wctx|R", ratio: 2, threads: [][]call{{{key: k1, holdOn: "late-reader-in"}}, {{key: k1, write: true, ctx: 1}}, {{key: k1, signal: "late-reader-in"}}}, cancels: []int{1}, pb: [2]int{4, 6}},
 		prog{name: "cancel/holder|Wctx|Wctx", ratio: 2, threads: [][]call{{{key: k1, write: true}}, {{key: k1, write: true, ctx: 1}}, {{key: k1, write: true, ctx: 2}}}, cancels: []int{1, 2}, pb: [2]int{2, 3}},
 		// the cancelled head leaves: EVERY waiter that now fits is admitted at once (two readers behind the writer)
 		prog{name: "cancel/holder|Wctx|R|R", ratio: 3, threads: [][]call{{{key: k1, holdOn: "both-late-readers-in"}}, {{key: k1, write: true, ctx: 1}}, {{key: k1, signal: "r1-in", holdOn: "both-late-readers-in"}}, {{key: k1, signal: "r2-in", holdOn: "both-late-readers-in"}}}, cancels: []int{1}, pb: [2]int{1, 2}},
 		// cancel racing the grant
 		prog{name: "cancel-vs-grant/W|Wctx", ratio: 2, threads: [][]call{{W(k1)}, {{key: k1, write: true, ctx: 1}}}, cancels: []int{1}, pb: [2]int{4, 6}},
-		prog{name: "cancel-vs-grant/R|Wctx|R", ratio: 2, threads: [][]call{{R(k1)}, {{key: k1, write: true, ctx: 1}}, {R(k1)}}, cancels: []int{1}, pb: [2]int{3, 6}},
+		prog{name: "cancel-vs-grant/R|Wctx|R", ratio: 2, threads: [][]call{{R(k1)}, {{key: k1, write: true, ctx: 1}}, {R(k1)}}, cancels: []int{1}, pb: [2]int{4, 6}},
 		// two keys: holding one never blocks the other
-		prog{name: "two-keys/W(k1)-holds-until-W(k2)-done", ratio: 2, threads: [][]call{{{key: k1, write: true, holdOn: "k2-in"}}, {{key: k2, write: true, signal: "k2-in"}}}, pb: [2]int{3, 6}},
-		prog{name: "two-keys/mixed", ratio: 2, threads: [][]call{{W(k1), R(k2)}, {W(k2), R(k1)}, {R(k1)}}, pb: [2]int{3, 6}},
+		prog{name: "two-keys/W(k1)-holds-until-W(k2)-done", ratio: 2, threads: [][]call{{{key: k1, write: true, holdOn: "k2-in"}}, {{key: k2, write: true, signal: "k2-in"}}}, pb: [2]int{4, 6}},
+		prog{name: "two-keys/mixed", ratio: 2, threads: [][]call{{W(k1), R(k2)}, {W(k2), R(k1)}, {R(k1)}}, pb: [2]int{4, 6}},
 	)
 	return ps
 }
